@@ -707,6 +707,25 @@ def rule_degreeparse(ctx):
     t = rets[-1].term
     sharp = any(x.op == "call" and call_name(x) == ".count" and x.a[1][1].op == "const" and x.a[1][1].a[0] == "#" for x in tm.walk(t))
     flat_neg = any((x.op == "bin" and x.a[0] == "*" and any(tm.is_const(z, -1) for z in x.a[1:]) and any(z.op == "call" and call_name(z) == ".count" and z.a[1][1].op == "const" and z.a[1][1].a[0] == "b" for z in x.a[1:])) or (x.op == "un" and x.a[0] == "-" and x.a[1].op == "call" and call_name(x.a[1]) == ".count" and x.a[1].a[1][1].a[0] == "b") for x in tm.walk(t))
+    def _len_of(z, stripped):
+        """len(scale_degree) / len(scale_degree.strip(ch)) -> ('raw', None) / ('strip', ch)"""
+        if not (z.op == "call" and call_name(z) == "builtins.len" and len(z.a[1]) == 1):
+            return None
+        a = z.a[1][0]
+        if a.op == "param":
+            return ("raw", None)
+        if a.op == "call" and call_name(a) in (".strip", ".lstrip") and len(a.a[1]) == 2 and a.a[1][0].op == "param" and a.a[1][1].op == "const":
+            return ("strip", a.a[1][1].a[0])
+        return None
+
+    # the same numbers as a change of length: len(label) - len(label.strip('#')) sharps, len(label.strip('b')) - len(label)
+    for x in tm.walk(t):
+        if x.op == "bin" and x.a[0] == "-":
+            l_, r_ = _len_of(x.a[1], None), _len_of(x.a[2], None)
+            if l_ == ("raw", None) and r_ == ("strip", "#"):
+                sharp = True
+            if l_ == ("strip", "b") and r_ == ("raw", None):
+                flat_neg = True
     yield ob(R, f, "chord.scale_degree_to_semitone:offset-sign", sharp and flat_neg, "semitone = table value + (#sharps) or - (#flats)")
     # the result is the absolute distance above the root (degree 9 is 14 semitones): scale_degree_to_bitmap discards what does
     # not fit the bitmap length by comparing this value with the length, so a value wrapped to one octave is never discarded
@@ -725,8 +744,8 @@ def rule_strictbass(ctx):
     tested = None
     for c, pol in symeval.pc_conds(rs[0].pc):
         for x in tm.walk(c):
-            if x.op == "sub" and x.a[0].op != "param" and any(y.op == "call" and call_name(y) == "chord.quality_to_bitmap" for y in tm.walk(x.a[0])):
-                tested = x.a[0]
+            if tested is None and x.op == "sub" and x.a[0].op != "param" and any(y.op == "call" and call_name(y) == "chord.quality_to_bitmap" for y in tm.walk(x.a[0])):
+                tested = x.a[0]  # the outermost read: in-place edits inside the loop read single slots of the bitmap as well
     need(tested is not None, R, "encode: tested bitmap not found")
     final = any(y.op == "call" and call_name(y) == "astype" for y in tm.walk(tested)) and any(y.op in ("loop", "loopvar") for y in tm.walk(tested))
     yield ob(R, f, "chord.encode:strict-tests-final-bitmap", final, "the strict check reads the binarised bitmap after the loop over added/omitted degrees" if final else "the strict check reads %s: the bitmap before the added/omitted degrees are applied (a bass that an addition introduces is rejected, one that an omission removes is accepted)" % tm.show(tested, 3), node=rs[0].node)
